@@ -11,6 +11,7 @@
 #include <cppcms/service.h>
 #include "service_impl.h"
 #include "cppcms_error_category.h"
+#include <booster/verif_trace.h>
 #include <iostream>
 #include <stdlib.h>
 #include <stdio.h>
@@ -59,6 +60,7 @@ namespace cgi {
 
 		void on_first_read(booster::system::error_code const &e,size_t n,handler const &h)
 		{
+			BOOSTER_VERIF_EMIT("\"e\":\"Read\",\"api\":\"scgi\",\"n\":%lu",(unsigned long)n);
 			if(e) {
 				h(e);
 				return;
